@@ -49,6 +49,7 @@ type Ctx struct {
 	notes      []string
 	notDecided []string
 	funcsSeen  map[string]bool
+	anchored   map[string]bool // functions the rules looked up by name (a subset of funcsSeen)
 	explain    string
 	assume     []string
 }
